@@ -1102,7 +1102,7 @@ def source_path(modname):
     return p + ".py"
 
 
-def load_shimmed(modname, overrides=None, transform=None, alias=None):
+def load_shimmed(modname, overrides=None, transform=None, alias=None, pre=None):
     """Exec the *current source text* of ``modname`` into a fresh module object whose
     relative imports resolve to the real chmpy, then rebind selected globals."""
     path = source_path(modname)
@@ -1116,6 +1116,8 @@ def load_shimmed(modname, overrides=None, transform=None, alias=None):
     m.__file__ = path
     m.__package__ = modname.rsplit(".", 1)[0]
     m.__name__ = modname  # so that relative imports and logging names match
+    for k, v in (pre or {}).items():   # names the module captures at import time (e.g. float in parser tables)
+        m.__dict__[k] = v
     exec(code, m.__dict__)
     shim = SymNumpy()
     if "np" in m.__dict__:
